@@ -848,8 +848,12 @@ class StaticVector : public StaticVectorBase<T, SizeType> {
 
   template <class VectorType>
   void swap2_impl(VectorType &o) noexcept(is_swap_noexcept<T>::value) {
-    swap_deep(this->begin(), this->size(), o.begin(), o.size());
-    swap_sizetype(this->msize(), o.msize());
+    // Capacities have been adjusted: each size fits in the other size type
+    const SizeType mySize = this->size();
+    const typename VectorType::size_type oSize = o.size();
+    swap_deep(this->begin(), mySize, o.begin(), oSize);
+    this->setSize(static_cast<SizeType>(oSize));
+    o.setSize(static_cast<typename VectorType::size_type>(mySize));
   }
 
   // Adjust capacity methods take uintmax_t as parameter to check for size_type overflow
@@ -963,19 +967,34 @@ class DynamicVector : public DynamicVectorBaseTypeDispatcher<T, Alloc, SizeType,
   template <class OSizeType, class OGrowingPolicy>
   void swap2_impl(StaticVector<T, OSizeType, OGrowingPolicy> &o) noexcept(is_swap_noexcept<T>::value) {
     // Here 'o' cannot grow so we cannot swap any dynamic storage. Deeply swap all elements
-    swap_deep(this->begin(), this->size(), o.begin(), o.size());
-    swap_sizetype(this->msize(), o.msize());
+    // Capacities have been adjusted: each size fits in the other size type
+    const SizeType mySize = this->size();
+    const OSizeType oSize = o.size();
+    swap_deep(this->begin(), mySize, o.begin(), oSize);
+    this->setSize(static_cast<SizeType>(oSize));
+    o.setSize(static_cast<OSizeType>(mySize));
   }
 
   template <class OAlloc, class OSizeType, bool OWithInlineElems>
   void swap2_impl(DynamicVector<T, OAlloc, OSizeType, OWithInlineElems> &o) noexcept(is_swap_noexcept<T>::value) {
+    // Read sizes and capacities before anything is exchanged
+    const SizeType mySize = this->size();
+    const OSizeType oSize = o.size();
     if (this->canSwapDynStorage(o)) {
+      const SizeType myCapa = this->capacity();
+      const OSizeType oCapa = o.capacity();
       this->swapDynStorage(o);
-      swap_sizetype(this->mcapacity(), o.mcapacity());
+      // Both are in large state: set the size first, then the capacity
+      this->setSize(static_cast<SizeType>(oSize));
+      this->mcapacity() = static_cast<SizeType>(oCapa);
+      o.setSize(static_cast<OSizeType>(mySize));
+      o.mcapacity() = static_cast<OSizeType>(myCapa);
     } else {
-      swap_deep(this->begin(), this->size(), o.begin(), o.size());
+      // Capacities have been adjusted: each size fits in the other size type
+      swap_deep(this->begin(), mySize, o.begin(), oSize);
+      this->setSize(static_cast<SizeType>(oSize));
+      o.setSize(static_cast<OSizeType>(mySize));
     }
-    swap_sizetype(this->msize(), o.msize());
   }
 
   /// Grow for one more element. If growing fails, destroy the already constructed new element before rethrowing.
